@@ -3,10 +3,12 @@
 // construction  utils.ConcatKey(contract, seg...)  feeding CacheDB Put/Get/Delete.
 //
 // Each segment is classified
-//   lit("…")  []byte(CONST) / []byte("literal")           (constants resolved across packages)
-//   fix(n)    GetUint64Bytes→8, GetUint32Bytes→4, Address[:]→20, Uint256[:]/ToArray()→32, [N]byte[:]→N,
-//             eth Hash().Bytes()/chainhash CloneBytes()→32
-//   var       anything else (caller-controlled byte strings)
+//
+//	lit("…")  []byte(CONST) / []byte("literal")           (constants resolved across packages)
+//	fix(n)    GetUint64Bytes→8, GetUint32Bytes→4, Address[:]→20, Uint256[:]/ToArray()→32, [N]byte[:]→N,
+//	          eth Hash().Bytes()/chainhash CloneBytes()→32
+//	var       anything else (caller-controlled byte strings)
+//
 // by plain go/parser + go/ast with a small amount of local data flow (last assignment of an identifier in the
 // enclosing function; parameter types; constant arguments of same-package callers for key-prefix parameters).
 // The classification is validated dynamically (see validate.go): every key really written by the transaction
@@ -29,12 +31,12 @@ const repoRoot = "/repo"
 const modPath = "github.com/polynetwork/poly"
 
 type Seg struct {
-	K   string `json:"k"` // lit | fix | var
-	Lit string `json:"lit,omitempty"`
-	Name string `json:"name,omitempty"` // identity of the constant the literal comes from (package dir + name)
-	N   int    `json:"n,omitempty"`
-	Src string `json:"src,omitempty"`
-	Chain bool `json:"chain,omitempty"` // fix(8) segment built from a chain id expression
+	K     string `json:"k"` // lit | fix | var
+	Lit   string `json:"lit,omitempty"`
+	Name  string `json:"name,omitempty"` // identity of the constant the literal comes from (package dir + name)
+	N     int    `json:"n,omitempty"`
+	Src   string `json:"src,omitempty"`
+	Chain bool   `json:"chain,omitempty"` // fix(8) segment built from a chain id expression
 }
 
 func (s Seg) String() string {
@@ -62,22 +64,22 @@ type Site struct {
 type pkgInfo struct {
 	dir    string
 	files  map[string]*ast.File
-	consts map[string]string        // string constants
-	funcs  map[string]*ast.FuncDecl // top-level functions (methods under Recv.Name)
+	consts map[string]string          // string constants
+	funcs  map[string]*ast.FuncDecl   // top-level functions (methods under Recv.Name)
 	fields map[string]map[string]bool // struct field name -> set of type strings
 }
 
 type extractor struct {
-	fset    *token.FileSet
-	overlay map[string]string
-	pkgs    map[string]*pkgInfo // by dir
-	Sites   []Site
-	Unres   []string // unresolved constructions (extractor incompleteness, listed in the evidence)
-	PkgVarPrefixes map[string]string
-	assignedNames  map[string]bool
-	callerNames    map[string]string
-	ConcatCalls int
-	CacheUses   int
+	fset              *token.FileSet
+	overlay           map[string]string
+	pkgs              map[string]*pkgInfo // by dir
+	Sites             []Site
+	Unres             []string // unresolved constructions (extractor incompleteness, listed in the evidence)
+	PkgVarPrefixes    map[string]string
+	assignedNames     map[string]bool
+	callerNames       map[string]string
+	ConcatCalls       int
+	CacheUses         int
 	CacheUsesResolved int
 }
 
